@@ -833,7 +833,9 @@ fn open_rdwr_nonblock(path: &Path) -> std::fs::File {
 
 fn start_class(err: &str) -> &'static str {
     // what connect_or_start_server went through, from the client's own trace output
-    if err.contains("AddrInUse") || err.contains("Address in use") {
+    if err.contains("Listening on address") {
+        "wrong_addr"
+    } else if err.contains("AddrInUse") || err.contains("Address in use") {
         "addr_in_use"
     } else if err.contains("Timed out waiting for server startup") {
         "timed_out"
@@ -848,33 +850,75 @@ fn start_class(err: &str) -> &'static str {
     }
 }
 
+/// The server address of a cold-start case: the TCP port, or a Unix-domain socket (SCCACHE_SERVER_UDS) whose
+/// path is spelled in a canonical or a NON-canonical way (through a symlinked directory, with `..`, with `.` and a
+/// doubled separator), or an abstract socket.
+fn coldstart_uds(kind: &str, d: &Path) -> Option<std::ffi::OsString> {
+    let mk = |p: &str| std::fs::create_dir_all(d.join(p)).unwrap();
+    match kind {
+        "uds_plain" => {
+            mk("plain");
+            Some(d.join("plain/s").into_os_string())
+        }
+        "uds_symlink" => {
+            mk("real");
+            let _ = std::os::unix::fs::symlink(d.join("real"), d.join("link"));
+            Some(d.join("link/s").into_os_string())
+        }
+        "uds_dotdot" => {
+            mk("a");
+            mk("b");
+            Some(format!("{}/a/../b/s", d.display()).into())
+        }
+        "uds_dot" => {
+            mk("c");
+            Some(format!("{}/c/.//s", d.display()).into())
+        }
+        "uds_abstract" => Some(
+            format!("\\x00{}", d.file_name().map(|n| n.to_string_lossy().into_owned()).unwrap_or_default()).into(),
+        ),
+        _ => None,
+    }
+}
+
 fn run_coldstart_case(case: &Sx) -> Sx {
     let k = case.arg(0).u64() as usize;
     let after_kill = case.arg(1).as_bool();
+    let kind = case.arg(2).str();
     let dir = scratch("vh-c11s-");
     let d = dir.path().to_path_buf();
-    let mut port = free_port();
+    let port = free_port();
+    let uds = coldstart_uds(&kind, &d);
     if after_kill {
-        // a server that was there and is gone (SIGKILL): same port, same cache directory
-        match start_server_in(dir, DEFAULT_CAP_BYTES) {
-            Ok(mut l) => {
-                port = l.port;
-                let _ = l.child.kill();
-                let _ = l.child.wait();
-                // keep the directory: `l.dir` is moved back out
-                let Live { dir: dd, .. } = l;
-                return coldstart_clients(dd, port, k);
+        // a server that was there and is gone (SIGKILL): same address, same cache directory; started the way
+        // real use starts it, found through /proc, killed by pid
+        let mut start = base_cmd(&d);
+        server_env(&mut start, &d, port, DEFAULT_CAP_BYTES);
+        if let Some(u) = &uds {
+            start.env("SCCACHE_SERVER_UDS", u);
+        }
+        let _ = start.current_dir(&d).arg("--start-server").stdout(Stdio::null()).stderr(Stdio::null()).status();
+        let pids = server_pids(&d);
+        if pids.is_empty() {
+            scan_and_kill_everything(&d);
+            return Sx::L(vec![Sx::sym("harness_problem"), Sx::sym("first_server_did_not_start")]);
+        }
+        for p in &pids {
+            unsafe {
+                libc::kill(*p, libc::SIGKILL);
             }
-            Err(dd) => return coldstart_clients(dd, port, k),
+        }
+        let t0 = Instant::now();
+        while !server_pids(&d).is_empty() && t0.elapsed() < FAILSAFE {
+            std::thread::sleep(Duration::from_millis(2));
         }
     }
-    let _ = d;
-    coldstart_clients(dir, port, k)
+    coldstart_clients(dir, port, k, uds)
 }
 
 const DEFAULT_CAP_BYTES: u64 = 8 * 1024 * 1024;
 
-fn coldstart_clients(dir: tempfile::TempDir, port: u16, k: usize) -> Sx {
+fn coldstart_clients(dir: tempfile::TempDir, port: u16, k: usize, uds: Option<std::ffi::OsString>) -> Sx {
     let d = dir.path().to_path_buf();
     let ready = d.join("ready");
     let go = d.join("go");
@@ -898,6 +942,9 @@ fn coldstart_clients(dir: tempfile::TempDir, port: u16, k: usize) -> Sx {
             .env("SCCACHE_LOG", "sccache::commands=trace")
             .env("SCCACHE_IDLE_TIMEOUT", "60");
         server_env(&mut c, &d, port, DEFAULT_CAP_BYTES);
+        if let Some(u) = &uds {
+            c.env("SCCACHE_SERVER_UDS", u);
+        }
         c.env("SCCACHE_IDLE_TIMEOUT", "60")
             .current_dir(&work)
             .arg("-c")
@@ -944,6 +991,9 @@ fn coldstart_clients(dir: tempfile::TempDir, port: u16, k: usize) -> Sx {
     }
     let mut stop = base_cmd(&d);
     server_env(&mut stop, &d, port, DEFAULT_CAP_BYTES);
+    if let Some(u) = &uds {
+        stop.env("SCCACHE_SERVER_UDS", u);
+    }
     let _ = stop.arg("--stop-server").stdout(Stdio::null()).stderr(Stdio::null()).status();
     scan_and_kill_everything(&d);
     drop(ready_f);
